@@ -218,24 +218,30 @@ pub fn run(tier: Tier, report: &mut Report, all_docs: &dyn Fn(&str) -> Vec<Doc>)
                 acc.evaluations += 1;
                 acc.transitions += 1;
                 if let Ok(got) = run_typed(subject, input, &Spec::oneshot()) {
-                    match lex(kind, input) {
+                    let lexed = if kind == "log" {
+                        crate::typed::lex_log_assignment(input).map(|lits| Value { header: None, clauses: if lits.is_empty() && got.clauses.is_empty() { vec![] } else { vec![(None, lits)] }, status: got.status.clone() })
+                    } else {
+                        lex(kind, input)
+                    };
+                    let report_it = |acc: &mut Report, k: &str, why: String, expected: &Option<Value>| {
+                        let key = format!("{kind}/accepted-meaning/{k}");
+                        acc.violation_with(&key, input.len() as u64, || {
+                            (format!("{name} accepts {:?}: {why}; returned {got:?}, independent reading {expected:?}", show(input)), json!({"property": "C06", "subject": name, "input_hex": hex(input), "input": show(input), "spec": Spec::oneshot().to_json()}))
+                        });
+                    };
+                    match lexed {
                         None => {
-                            acc.count("accepted_but_lexical_reader_skipped", 1);
-                            if std::env::var_os("MC_DEBUG_LEX").is_some() {
-                                eprintln!("LEXSKIP {kind} {:?}", show(input));
-                            }
+                            // accepted, but the text is not a sequence of well-formed numbers in the
+                            // plain token structure of the format: the numbers returned cannot be
+                            // the numbers written
+                            acc.count("accepted_but_not_well_formed_for_the_independent_reader", 1);
+                            report_it(acc, "not-well-formed", "the independent reader finds a token that is not a decimal number (or a clause without terminating zero) where the parser returned numbers".to_string(), &None);
                         }
                         Some(lexed) => {
                             acc.nontrivial += 1;
                             acc.count("accepted_and_reread", 1);
-                            let expected = if kind == "log" { Value { header: None, clauses: got.clauses.clone(), status: got.status.clone() } } else { lexed };
-                            if kind != "log" {
-                                if let Some((k, why)) = judge(kind, &lit, flag, &got, &expected) {
-                                    let key = format!("{kind}/accepted-meaning/{k}");
-                                    acc.violation_with(&key, input.len() as u64, || {
-                                        (format!("{name} accepts {:?}: {why}; returned {got:?}, independent reading {expected:?}", show(input)), json!({"property": "C06", "subject": name, "input_hex": hex(input), "input": show(input), "spec": Spec::oneshot().to_json()}))
-                                    });
-                                }
+                            if let Some((k, why)) = judge(kind, &lit, flag, &got, &lexed) {
+                                report_it(acc, k, why, &Some(lexed));
                             }
                         }
                     }
